@@ -244,3 +244,74 @@ def check_work_buffers(ctx, rep, rule: str, modules: Iterable[str]) -> int:
                 rep.ok(rule, f"{mname.replace('torchtree.', '')}::{scope}::buffers-carry-the-dtype-of-what-is-stored", where(m, fn), {'allocations': len(allocs)})
     rep.analysed['work_buffer_allocations'] = n
     return n
+
+
+# ---------------------------------------------------------------------------
+# constructor arguments that may be Python numbers, turned into tensors without a dtype and computed with in other methods
+# ---------------------------------------------------------------------------
+ATTR_POSITIVE = '''
+class D:
+    def __init__(self, alpha, beta: float, gamma: torch.Tensor, validate_args=None):
+        self.alpha = torch.as_tensor(alpha)
+        self.beta = torch.as_tensor(beta, dtype=torch.float64)
+        self.gamma = torch.as_tensor(gamma)
+    def log_prob(self, x):
+        return self.alpha * torch.log(self.beta) + self.gamma + x
+'''
+
+
+def default_precision_attributes(cnode: ast.ClassDef):
+    """(attribute, construction, use) for `self.A = torch.as_tensor(p)` / `torch.tensor(p)` in __init__ with p a constructor parameter that can be a Python number (annotated
+    float / int / Number, or not annotated at all) and no dtype, where another method computes with self.A"""
+    init = next((b for b in cnode.body if isinstance(b, ast.FunctionDef) and b.name == '__init__'), None)
+    if init is None:
+        return []
+    ann = {a.arg: (ast.unparse(a.annotation) if a.annotation is not None else None) for a in init.args.args + init.args.kwonlyargs}
+    out = []
+    for st in ast.walk(init):
+        if not (isinstance(st, ast.Assign) and isinstance(st.value, ast.Call) and (dotted_name(st.value.func) or '') in ('torch.as_tensor', 'torch.tensor') and st.value.args):
+            continue
+        c = st.value
+        if any(k.arg == 'dtype' or k.arg is None for k in c.keywords) or len(c.args) > 1:
+            continue
+        a0 = c.args[0]
+        if not (isinstance(a0, ast.Name) and a0.id in ann):
+            continue
+        an = ann[a0.id]
+        numberish = an is None or any(k in an for k in ('float', 'int', 'Number')) and not any(k in an for k in ('Tensor', 'Parameter'))
+        if not numberish:
+            continue
+        attrs = [t.attr for t in st.targets if isinstance(t, ast.Attribute) and isinstance(t.value, ast.Name) and t.value.id == 'self']
+        for attr in attrs:
+            for fn in [b for b in cnode.body if isinstance(b, ast.FunctionDef) and b.name != '__init__']:
+                for x in ast.walk(fn):
+                    operands = []
+                    if isinstance(x, ast.BinOp) and isinstance(x.op, (ast.Add, ast.Sub, ast.Mult, ast.Div, ast.Pow)):
+                        operands = [x.left, x.right]
+                    elif isinstance(x, ast.Call) and (dotted_name(x.func) or '').startswith('torch.') and x.args:
+                        operands = list(x.args)
+                    if any(isinstance(o, ast.Attribute) and o.attr == attr and isinstance(o.value, ast.Name) and o.value.id == 'self' for o in operands):
+                        out.append((attr, c, x))
+                        break
+                else:
+                    continue
+                break
+    return out
+
+
+def check_default_precision_attributes(ctx, rep, rule: str, modules: Iterable[str]) -> int:
+    t = ast.parse(ATTR_POSITIVE)
+    if [a for a, _, _ in default_precision_attributes(t.body[0])] != ['alpha']:
+        raise AnalysisError('default-precision attribute self-check failed')
+    n = 0
+    for mname in modules:
+        m = ctx.prog.module(mname)
+        for cname, cnode in m.classes.items():
+            n += 1
+            for attr, c, use in default_precision_attributes(cnode):
+                rep.bad(rule, f"{mname.replace('torchtree.', '')}::{cname}.__init__::self.{attr}::number-kept-at-the-requested-precision", where(m, c), {'use': norm_text(use)[:80]},
+                        f"{cname}.__init__ turns the constructor argument into a tensor with `{norm_text(c)[:50]}`: a Python number becomes a float32 tensor (torch's default), and "
+                        f"`{norm_text(use)[:60]}` then computes the constant terms of a double-precision density in single precision (errors of 1e-7 relative, growing with the "
+                        f"size of the tree)")
+    rep.ok(rule, f"{'+'.join(x.split('.')[-1] for x in modules)}::constructor-numbers-keep-their-precision", '', {'classes_scanned': n})
+    return n
